@@ -78,24 +78,40 @@ def check_tables(rep, F):
                      "rebuilds its exclusions after all molecules were created; every molecule's map is added to the topology map")
     pb = F.one(C + "CGMoleculeDef::ParseBeads")
     rep.analysed(pb)
+    # decided by cases on the folded function: (the option exists?, its value) -> which symmetry is stored / whether the error is raised
+    from sympy.core.function import AppliedUndef
+    from vsa.cases import executes as _exs
+    fpb = Fold(pb).run()
+    cpb = getattr(fpb, "conds", {})
+    sst = [e for e in fpb.events if e["kind"] == "store" and e["target"].endswith("symmetry_")]
+    thr_ev = [e for e in fpb.events if e["kind"] == "throw"]
+    symv = set()
+    for e in sst + thr_ev:
+        for g_ in list(e["guards"]) + [x for nl in e.get("not", []) for x in nl]:
+            stack = [g_[0]]
+            while stack:
+                c_ = stack.pop()
+                if isinstance(c_, tuple):
+                    stack += list(c_[1:])
+                elif isinstance(c_, sp.Basic):
+                    symv |= {a_ for a_ in c_.atoms(AppliedUndef) if str(a_.func) == "as" and '"symmetry"' in str(a_)}
+
+    def has_orc(lf):
+        if str(getattr(lf, "func", "")) == "exists" and '"symmetry"' in str(lf):
+            return ("HAS", True)
+        if isinstance(lf, tuple) and lf and lf[0] == "loop":
+            return None
+        return None
     sym = {}
-    for n in pb.walk():
-        if n.get("k") == "opcall" or n.get("k") == "assign":
-            lhs = n.get("lhs") or (n["args"][0] if n.get("args") else None)
-            rhs = n.get("rhs") or (n["args"][1] if n.get("args") and len(n["args"]) > 1 else None)
-            if lhs is not None and nows(show(lhs)).endswith("->symmetry_") and rhs is not None:
-                conds = [a for a in pb.ancestors(n) if a.get("k") == "if"]
-                key = "default"
-                for a in conds:
-                    c = nows(show(a["cond"]))
-                    m = re.match(r"^\(sym==(\d)\)$", c)
-                    if m and any(x.get("id") == n["id"] for x in walk(a["then"])):
-                        key = m.group(1)
-                        break
-                sym[key] = nows(show(rhs)).split("::")[-1]
-    thr = any(x.get("k") == "throw" for n in pb.walk() if n.get("k") == "if" and "sym" in show(n["cond"]) for x in walk(n.get("else") or {}))
-    rep.check(sym == {"1": "spherical", "3": "ellipsoidal", "default": "spherical"} and thr, "R1.6", "symmetry|parse", "symmetry 1 -> spherical, 3 -> ellipsoidal, default spherical, other values throw",
-              "CGMoleculeDef::ParseBeads symmetry table is %s (other values throw: %s)" % (sym, thr), pb.loc(), sample=True)
+    for label, has, v in (("1", True, 1), ("3", True, 3), ("other", True, 2), ("other0", True, 0), ("default", False, 1)):
+        sub = {a_: sp.Integer(v) for a_ in symv}
+        A = {"HAS": has}
+        live = [e for e in sst if _exs(e, sub, A, has_orc, cpb)]
+        # errors raised because of the symmetry value: throws whose condition mentions it
+        thrown = [e for e in thr_ev if any('"symmetry"' in str(g_[0]) for g_ in e["guards"]) and _exs({"guards": [g_ for g_ in e["guards"] if '"symmetry"' in str(g_[0])], "not": []}, sub, A, has_orc, cpb)]
+        sym[label] = "throw" if (thrown and not live) else (str(live[-1]["value"]).split("::")[-1] if len(live) == 1 else "%d stores/%d throws" % (len(live), len(thrown)))
+    rep.check(bool(symv) and sym == {"1": "spherical", "3": "ellipsoidal", "other": "throw", "other0": "throw", "default": "spherical"}, "R1.6", "symmetry|parse",
+              "symmetry 1 -> spherical, 3 -> ellipsoidal, default spherical, other values throw", "CGMoleculeDef::ParseBeads symmetry table is %s" % sym, pb.loc(), sample=True)
     cm = F.one(C + "CGMoleculeDef::CreateMap")
     rep.analysed(cm)
     from vsa.cases import executes as _ex
@@ -127,22 +143,50 @@ def check_tables(rep, F):
         rep.check(ok, "R1.6", "beadmap-type", "BeadMapType::Spherical -> Map_Sphere, otherwise Map_Ellipsoid", "Map::CreateBeadMap maps types as %s" % conds, fm[0].loc())
     cb = F.one(C + "CGMoleculeDef::CreateMolecule")
     rep.analysed(cb)
+    # bonded table by cases of the interaction group's name: beads per interaction (the modulus of the bead-list length test) and the class created
+    from vsa.cases import decide as _dcd, resolve_ite as _rsv
+    fcb = Fold(cb, record_calls=r"AddBondedInteraction$").run()
+    ccb = getattr(fcb, "conds", {})
+
+    def name_orc(lf):
+        if isinstance(lf, tuple) and len(lf) == 3 and lf[0] in ("==", "!="):
+            a_, b_ = str(lf[1]), str(lf[2])
+            for x_, y_ in ((a_, b_), (b_, a_)):
+                if x_.startswith("name(") and re.match(r'^"\w+"$', y_):
+                    return ("NAME=" + y_.strip('"'), lf[0] == "==")
+        return None
     counts, classes = {}, {}
-    for n in cb.walk():
-        if n.get("k") == "if":
-            c = nows(show(n["cond"]))
-            m = re.match(r'^\(prop->name\(\)=="(\w+)"\)$', c)
-            if not m:
-                continue
-            for x in walk(n["then"]):
-                if x.get("k") == "assign" and nows(show(x["lhs"])) == "NrBeads" and lit_value(x["rhs"]) is not None:
-                    counts[m.group(1)] = int(lit_value(x["rhs"]))
-                if x.get("k") == "new":
-                    classes[m.group(1)] = x["type"].split("::")[-1]
+    adds = [e for e in fcb.events if e["kind"] == "call"]
+    mods = []
+    for e in fcb.events:
+        for g_ in e["guards"]:
+            stack = [g_[0]]
+            while stack:
+                c_ = stack.pop()
+                if isinstance(c_, tuple):
+                    stack += list(c_[1:])
+                elif isinstance(c_, sp.Basic):
+                    mods += [a_ for a_ in sp.preorder_traversal(c_) if str(getattr(a_, "func", "")) in ("imod", "mod") and len(a_.args) == 2]
+    for kind_ in ("bond", "angle", "dihedral", "other"):
+        A = {"NAME=" + k_: k_ == kind_ for k_ in ("bond", "angle", "dihedral")}
+        pick = lambda cs: _dcd(ccb[cs], None, A, name_orc, ccb) if cs in ccb else None
+        if mods:
+            nv = _rsv(mods[0].args[1], pick) if hasattr(mods[0].args[1], "args") else mods[0].args[1]
+            counts[kind_] = int(nv) if getattr(nv, "is_Integer", False) else str(nv)
+        if len(adds) == 1 and adds[0]["args"]:
+            cv = adds[0]["args"][-1]
+            cv = _rsv(cv, pick) if hasattr(cv, "args") else cv
+            m_ = re.match(r"^new@(\d+)$", str(cv))
+            nd = cb.nodes.get(int(m_.group(1))) if m_ else None
+            classes[kind_] = (nd.get("type") or "?").split("::")[-1].rstrip(" *") if nd else str(cv)[:40]
+    thr_other = [e for e in fcb.events if e["kind"] == "throw" and any(name_orc(g_[0]) is not None for g_ in e["guards"]) and
+                 _exs({"guards": [g_ for g_ in e["guards"] if name_orc(g_[0]) is not None], "not": []}, None, {"NAME=bond": False, "NAME=angle": False, "NAME=dihedral": False}, name_orc, ccb)]
+    counts.pop("other", None)
+    oth = classes.pop("other", None)
     want_n = {"bond": 2, "angle": 3, "dihedral": 4}
     want_c = {"bond": "IBond", "angle": "IAngle", "dihedral": "IDihedral"}
-    rep.check(counts == want_n and classes == want_c, "R1.6", "bonded-table", "bond/IBond/2, angle/IAngle/3, dihedral/IDihedral/4",
-              "CGMoleculeDef::CreateMolecule bonded table: counts %s classes %s" % (counts, classes), cb.loc(), sample=True)
+    rep.check(counts == want_n and classes == want_c and bool(thr_other), "R1.6", "bonded-table", "bond/IBond/2, angle/IAngle/3, dihedral/IDihedral/4, anything else is an error",
+              "CGMoleculeDef::CreateMolecule bonded table: beads per interaction %s, classes %s, unknown group names %s" % (counts, classes, "throw" if thr_other else "are accepted (as %s)" % oth), cb.loc(), sample=True)
     ce = F.one(C + "CGEngine::CreateCGTopology")
     rep.analysed(ce)
     g = CFG(ce)
